@@ -99,6 +99,7 @@ func (in *Interp) resetPath() {
 	in.allocs = nil
 	in.loopCount = nil
 	in.opaqueSeq = 0
+	in.config = nil
 	in.ctxSeq = 0
 	in.cur = nil
 	in.g = nil
